@@ -230,6 +230,7 @@ impl Prop for C09Schedules {
             let log = s.disarm();
             drop(_guard);
             st.count("controlled_runs", 1);
+            st.evaluations += 1; // every controlled schedule is an execution of its own
             if log.stalled {
                 // not every task got its own worker in time (machine overloaded): the scheduler
                 // released all tasks and the run finished uncontrolled; its result must still
